@@ -783,5 +783,10 @@ V("C09", 'toy-band-one-sigma-rank-off', 'fire', 'C09.R7', 'the -1 sigma percenti
   ('src/pyhf/infer/calculators.py', '        normal_percentiles = tb.astensor(\n            [2.27501319, 15.86552539, 50.0, 84.13447461, 97.72498681]\n        )\n', '        normal_percentiles = tb.astensor(\n            [2.27501319, 25.0, 50.0, 84.13447461, 97.72498681]\n        )\n'))
 V("C09", 'toy-band-not-transposed', 'fire', 'C09.R7', 'percentile result returned without the transpose (five rows of three)',
   ('src/pyhf/infer/calculators.py', '        pvalues_exp_band = tb.transpose(\n            tb.percentile(pvalues, normal_percentiles, axis=0)\n        )\n', '        pvalues_exp_band = tb.percentile(pvalues, normal_percentiles, axis=0)\n'))
+V('C10', 'viewer-split-remembered-by-identity', 'fire', 'C10.R6', 'batched split remembers the last array object and its parts',
+  ('src/pyhf/tensor/common.py', '        if self.names:\n            self.name_map = dict(zip(self.names, self.partition_indices))\n', '        if self.names:\n            self.name_map = dict(zip(self.names, self.partition_indices))\n        self._last_split = (None, None)\n'),
+  ('src/pyhf/tensor/common.py', "        data = tensorlib.einsum('...j->j...', tensorlib.astensor(data))\n        return [\n            tensorlib.einsum('j...->...j', tensorlib.gather(data, idx))\n            for idx in indices\n        ]\n", "        if selection is None and data is self._last_split[0]:\n            return self._last_split[1]\n        transposed = tensorlib.einsum('...j->j...', tensorlib.astensor(data))\n        parts = [\n            tensorlib.einsum('j...->...j', tensorlib.gather(transposed, idx))\n            for idx in indices\n        ]\n        if selection is None:\n            self._last_split = (data, parts)\n        return parts\n"))
+V('C10', 'viewer-split-local-rename', 'silent', '', 'batched split with the transposed tensor in its own local',
+  ('src/pyhf/tensor/common.py', "        data = tensorlib.einsum('...j->j...', tensorlib.astensor(data))\n        return [\n            tensorlib.einsum('j...->...j', tensorlib.gather(data, idx))\n            for idx in indices\n        ]\n", "        transposed = tensorlib.einsum('...j->j...', tensorlib.astensor(data))\n        parts = [\n            tensorlib.einsum('j...->...j', tensorlib.gather(transposed, idx))\n            for idx in indices\n        ]\n        return parts\n"))
 V("C13", "code4-exponent-mask-strict", "fire", "C13.R3", "code 4 takes exponent 1 (a constant) exactly at |alpha| = alpha0",
   ("src/pyhf/interpolators/code4.py", "            exponents >= self.__alpha0, exponents, self.ones", "            exponents > self.__alpha0, exponents, self.ones"))
